@@ -176,11 +176,11 @@ def decide(pid, mod, tier, seed, cases, results, wall):
     replay_paths = []
     if new_viol:
         os.makedirs(REPLAY, exist_ok=True)
-        seen = set()
+        seen = {}
         for c, v, sig in new_viol:
-            if sig in seen and len(seen) > 0 and len(replay_paths) >= 20:
+            seen[sig] = seen.get(sig, 0) + 1
+            if seen[sig] > 2 or len(replay_paths) >= 10:
                 continue
-            seen.add(sig)
             path = os.path.join(REPLAY, "%s_%s_s%d_i%d.json" % (pid, tier, seed, c["idx"]))
             json.dump({"property": pid, "case": c, "violation": v, "signature": sig}, open(path, "w"), indent=1,
                       default=str)
